@@ -1,5 +1,7 @@
-"""ARM A32 / Thumb-1 / Thumb-2 interpreter (unified syntax) for the subset the generators emit:
-ARMv6 (ARM mode), ARMv6-M (Thumb-1), ARMv7-M (Thumb-2)."""
+"""ARM A32 / Thumb-1 / Thumb-2 interpreter (unified syntax): ARMv6 (ARM mode), ARMv6-M (Thumb-1), ARMv7-M (Thumb-2).
+Covers what the generators emit plus the common data-processing, load/store (single, dual, multiple, byte/half, pre/post-index),
+compare/branch and bit-field instructions with full NZCV flags and condition suffixes, so that a rewrite of the same function
+is decided rather than left inconclusive.  Anything else is Unsupported (inconclusive), never guessed."""
 import re
 from emucore import Memory, Program, Unsupported, Violation, parse_int, STATE_BASE, STACK_TOP, STACK_SIZE, RET_SENTINEL
 
@@ -8,15 +10,57 @@ REG.update({'sb': 9, 'sl': 10, 'fp': 11, 'ip': 12, 'sp': 13, 'lr': 14, 'pc': 15}
 M = 0xffffffff
 CALLEE_SAVED = [4, 5, 6, 7, 8, 9, 10, 11, 13]
 
+CONDS = {'eq': lambda N, Z, C, V: Z == 1, 'ne': lambda N, Z, C, V: Z == 0, 'cs': lambda N, Z, C, V: C == 1, 'hs': lambda N, Z, C, V: C == 1,
+         'cc': lambda N, Z, C, V: C == 0, 'lo': lambda N, Z, C, V: C == 0, 'mi': lambda N, Z, C, V: N == 1, 'pl': lambda N, Z, C, V: N == 0,
+         'vs': lambda N, Z, C, V: V == 1, 'vc': lambda N, Z, C, V: V == 0, 'hi': lambda N, Z, C, V: C == 1 and Z == 0,
+         'ls': lambda N, Z, C, V: not (C == 1 and Z == 0), 'ge': lambda N, Z, C, V: N == V, 'lt': lambda N, Z, C, V: N != V,
+         'gt': lambda N, Z, C, V: Z == 0 and N == V, 'le': lambda N, Z, C, V: not (Z == 0 and N == V), 'al': lambda N, Z, C, V: True}
+DP = ('and', 'eor', 'sub', 'rsb', 'add', 'adc', 'sbc', 'orr', 'bic', 'orn', 'mov', 'mvn', 'lsl', 'lsr', 'asr', 'ror', 'neg')
+CMP = ('tst', 'teq', 'cmp', 'cmn')
+MEM = ('ldrd', 'strd', 'ldrb', 'strb', 'ldrh', 'strh', 'ldrsb', 'ldrsh', 'ldr', 'str')
+MULTI = ('ldmia', 'ldmfd', 'ldmdb', 'ldm', 'stmia', 'stmea', 'stmdb', 'stmfd', 'stm', 'push', 'pop')
+OTHER = ('adr', 'nop', 'uxtb', 'uxth', 'sxtb', 'sxth', 'rev', 'ubfx', 'sbfx', 'movw', 'movt', 'cbz', 'cbnz', 'bx', 'blx', 'bl')
+
 
 def ror32(v, n):
     n &= 31
-    return ((v >> n) | (v << (32 - n))) & M if n else v
+    return ((v >> n) | (v << (32 - n))) & M if n else v & M
+
+
+def sx(v, bits):
+    v &= (1 << bits) - 1
+    return v - (1 << bits) if v >> (bits - 1) else v
+
+
+def decode(mn):
+    """-> (base, setflags, cond) or None"""
+    mn = mn.lower()
+    for suf in ('.w', '.n'):
+        if mn.endswith(suf):
+            mn = mn[:-2]
+    if mn in ('b',):
+        return 'b', False, 'al'
+    if mn[0] == 'b' and mn[1:] in CONDS:
+        return 'b', False, mn[1:]
+    if re.fullmatch(r'i[te]{1,4}', mn):
+        return 'it', False, 'al'
+    for group in (MULTI, MEM, CMP, DP, OTHER):
+        for base in sorted(group, key=len, reverse=True):
+            if mn.startswith(base):
+                rest = mn[len(base):]
+                s = False
+                if group is DP and rest.startswith('s') and rest[1:] in ('',) + tuple(CONDS):
+                    s, rest = True, rest[1:]
+                if rest == '':
+                    return base, s or group is CMP, 'al'
+                if rest in CONDS:
+                    return base, s or group is CMP, rest
+    return None
 
 
 class ARM:
     def __init__(self, thumb1=False):
-        self.thumb1 = thumb1        # Thumb-1: low registers only for most data processing
+        self.thumb1 = thumb1        # Thumb-1: most data-processing instructions exist only in their flag-setting form
 
     def reg(self, s):
         s = s.strip().lower()
@@ -38,23 +82,76 @@ class ARM:
                 out.append(self.reg(part))
         return sorted(out)
 
-    def operand2(self, x, ops):
-        """flexible second operand: #imm | reg | reg, ror #n | reg, lsl #n ..."""
-        if ops[0].startswith('#'):
-            return parse_int(ops[0]) & M
+    def is_imm(self, s):
+        s = s.strip()
+        return s.startswith('#') or re.fullmatch(r'-?(0x)?[0-9a-fA-F]+', s) is not None
+
+    def shifted(self, x, v, spec, C):
+        """-> (value, carry out)"""
+        m = re.fullmatch(r'(ror|lsl|lsr|asr)\s*(#?-?\w+)', spec.strip().lower())
+        if spec.strip().lower() == 'rrx':
+            return ((C << 31) | (v >> 1)) & M, v & 1
+        if not m:
+            raise Unsupported('shifted operand %r' % spec)
+        kind, amt = m.group(1), m.group(2)
+        n = parse_int(amt) if self.is_imm(amt) else (x[self.reg(amt)] & 0xff)
+        return self.shift(kind, v, n, C)
+
+    def shift(self, kind, v, n, C):
+        v &= M
+        if n == 0:
+            return v, C
+        if kind == 'lsl':
+            return ((v << n) & M if n < 32 else 0), ((v >> (32 - n)) & 1 if n <= 32 else 0)
+        if kind == 'lsr':
+            return (v >> n if n < 32 else 0), ((v >> (n - 1)) & 1 if n <= 32 else 0)
+        if kind == 'asr':
+            if n >= 32:
+                return (M if v >> 31 else 0), v >> 31
+            return (sx(v, 32) >> n) & M, (v >> (n - 1)) & 1
+        r = ror32(v, n)
+        return r, r >> 31
+
+    def operand2(self, x, ops, C):
+        """flexible second operand -> (value, shifter carry)"""
+        if self.is_imm(ops[0]):
+            return parse_int(ops[0]) & M, C
         v = x[self.reg(ops[0])]
         if len(ops) > 1:
-            m = re.fullmatch(r'(ror|lsl|lsr)\s*#(\d+)', ops[1].strip().lower())
-            if not m:
-                raise Unsupported('shifted operand %r' % ops[1])
-            n = int(m.group(2))
-            if m.group(1) == 'ror':
-                v = ror32(v, n)
-            elif m.group(1) == 'lsl':
-                v = (v << n) & M
+            return self.shifted(x, v, ops[1], C)
+        return v, C
+
+    def address(self, x, ops):
+        """ops: memory operand and what follows -> (address, writeback reg or None, new base)"""
+        s = ops[0].strip()
+        m = re.fullmatch(r'\[\s*(\w+)\s*(?:,\s*([^\]]+?)\s*)?\](!?)', s)
+        if not m:
+            raise Unsupported('addressing mode %r' % s)
+        b = self.reg(m.group(1))
+        base = x[b]
+        off = 0
+        if m.group(2):
+            parts = [p.strip() for p in m.group(2).split(',')]
+            if self.is_imm(parts[0]):
+                off = parse_int(parts[0])
             else:
-                v = v >> n
-        return v
+                neg = parts[0].startswith('-')
+                off = x[self.reg(parts[0].lstrip('+-'))]
+                if len(parts) > 1:
+                    off, _ = self.shifted(x, off, parts[1], 0)
+                if neg:
+                    off = -off
+        if m.group(3) == '!':
+            a = (base + off) & M
+            return a, b, a
+        if len(ops) > 1 and not m.group(2):       # post-index
+            post = ops[1].strip()
+            if self.is_imm(post):
+                d = parse_int(post)
+            else:
+                d = x[self.reg(post.lstrip('+-'))] * (-1 if post.startswith('-') else 1)
+            return base & M, b, (base + d) & M
+        return (base + off) & M, None, None
 
     def call(self, prog, entry, state_mem, first_round, max_insn=400000):
         mem = Memory(big_endian=False)
@@ -68,13 +165,17 @@ class ARM:
         x[14] = RET_SENTINEL
         x[0], x[1] = STATE_BASE, first_round
         pc = prog.labels[entry]
-        Z = C = N = 0
+        N = Z = C = V = 0
         n = 0
         problems = []
+        done = False
 
-        def setnz(v):
-            nonlocal Z, N
-            Z, N = int(v & M == 0), (v >> 31) & 1
+        def addc(a, b, cin):
+            a &= M
+            b &= M
+            full = a + b + cin
+            r = full & M
+            return r, (r >> 31, int(r == 0), int(full > M), ((a ^ r) & (b ^ r)) >> 31 & 1)
 
         def branch_to_addr(a):
             a &= ~1
@@ -84,7 +185,15 @@ class ARM:
                 raise Violation('control-flow', 'jump to 0x%x which is not an instruction' % a)
             return prog.index_at[a]
 
-        while True:
+        def check(addr, size, src, store):
+            if addr % size:
+                raise Violation('misaligned-access', '%s at 0x%x' % (src, addr))
+            if STACK_TOP - STACK_SIZE <= addr < x[13]:
+                raise Violation('access-below-stack-pointer', '%s touches 0x%x while sp = 0x%x' % (src, addr, x[13]))
+            if store and STACK_TOP <= addr < STACK_TOP + 0x1000:
+                raise Violation('write-outside-allowed-memory', '%s stores above the entry stack pointer (caller frame)' % src)
+
+        while not done:
             if n >= max_insn:
                 raise Violation('no-return', 'more than %d instructions executed' % max_insn)
             if pc < 0 or pc >= len(prog.insns):
@@ -92,128 +201,169 @@ class ARM:
             mn, ops, src = prog.insns[pc]
             n += 1
             npc = pc + 1
-            base = mn[:-1] if mn.endswith('s') and mn not in ('bics',) and mn[:-1] in ('eor', 'mov', 'mvn', 'and', 'ror', 'lsl', 'lsr', 'bic', 'add', 'sub', 'orr') else mn
-            sflag = base != mn
-            if base in ('eor', 'and', 'bic', 'orr', 'add', 'sub'):
+            d = decode(mn)
+            if d is None:
+                raise Unsupported('mnemonic %r in: %s' % (mn, src))
+            base, sflag, cond = d
+            if base == 'it':
+                pc = npc
+                continue                      # the following instructions carry their own condition suffix
+            if not CONDS[cond](N, Z, C, V):
+                pc = npc
+                continue
+            if base in DP:
                 rd = self.reg(ops[0])
-                if len(ops) == 2:
-                    a, b = x[rd], self.operand2(x, ops[1:])
+                if base in ('mov', 'mvn'):
+                    v, sc = self.operand2(x, ops[1:], C)
+                    if base == 'mvn':
+                        v = ~v & M
+                    fl = (v >> 31, int(v == 0), sc, V)
+                elif base in ('lsl', 'lsr', 'asr', 'ror'):
+                    if len(ops) == 2:
+                        a, amt = x[rd], ops[1]
+                    else:
+                        a, amt = x[self.reg(ops[1])], ops[2]
+                    sh = parse_int(amt) if self.is_imm(amt) else (x[self.reg(amt)] & 0xff)
+                    if self.is_imm(amt) and not 0 <= sh <= 32:
+                        raise Violation('encoding', 'shift amount out of range in: %s' % src)
+                    v, sc = self.shift(base, a, sh, C)
+                    fl = (v >> 31, int(v == 0), sc, V)
+                elif base == 'neg':
+                    v, fl = addc(~x[self.reg(ops[1])] & M, 0, 1)
                 else:
-                    a, b = x[self.reg(ops[1])], self.operand2(x, ops[2:])
-                if base == 'eor':
-                    v = a ^ b
-                elif base == 'and':
-                    v = a & b
-                elif base == 'bic':
-                    v = a & ~b
-                elif base == 'orr':
-                    v = a | b
-                elif base == 'add':
-                    v = a + b
-                else:
-                    v = a - b
-                v &= M
+                    if len(ops) == 2:
+                        a, (b, sc) = x[rd], self.operand2(x, ops[1:], C)
+                    else:
+                        a, (b, sc) = x[self.reg(ops[1])], self.operand2(x, ops[2:], C)
+                    if base in ('and', 'eor', 'orr', 'bic', 'orn'):
+                        v = a & b if base == 'and' else a ^ b if base == 'eor' else a | b if base == 'orr' else a & ~b if base == 'bic' else a | (~b & M)
+                        v &= M
+                        fl = (v >> 31, int(v == 0), sc, V)
+                    elif base == 'add':
+                        v, fl = addc(a, b, 0)
+                    elif base == 'adc':
+                        v, fl = addc(a, b, C)
+                    elif base == 'sub':
+                        v, fl = addc(a, ~b & M, 1)
+                    elif base == 'sbc':
+                        v, fl = addc(a, ~b & M, C)
+                    else:    # rsb
+                        v, fl = addc(b, ~a & M, 1)
+                if sflag:
+                    N, Z, C, V = fl
                 if rd == 15:
                     t = branch_to_addr(v)
                     if t is None:
                         break
                     npc = t
                 else:
-                    x[rd] = v
-                if sflag:
-                    setnz(v)
-            elif base in ('mov', 'mvn'):
-                rd = self.reg(ops[0])
-                v = self.operand2(x, ops[1:])
-                if base == 'mvn':
-                    v = ~v & M
-                if sflag:
-                    setnz(v)
-                if rd == 15:
-                    t = branch_to_addr(v)
-                    if t is None:
-                        break
-                    npc = t
+                    x[rd] = v & M
+            elif base in CMP:
+                a, (b, sc) = x[self.reg(ops[0])], self.operand2(x, ops[1:], C)
+                if base == 'cmp':
+                    _, (N, Z, C, V) = addc(a, ~b & M, 1)
+                elif base == 'cmn':
+                    _, (N, Z, C, V) = addc(a, b, 0)
                 else:
-                    x[rd] = v
-            elif base in ('ror', 'lsl', 'lsr'):
-                rd = self.reg(ops[0])
-                if len(ops) == 2:
-                    a, amt = x[rd], ops[1]
-                else:
-                    a, amt = x[self.reg(ops[1])], ops[2]
-                sh = parse_int(amt) if amt.startswith('#') else (x[self.reg(amt)] & 0xff)
-                if base == 'ror':
-                    v = ror32(a, sh)
-                    if sh:
-                        C = (v >> 31) & 1
-                elif base == 'lsl':
-                    v = (a << sh) & M if sh < 32 else 0
-                    if 0 < sh <= 32:
-                        C = (a >> (32 - sh)) & 1
-                else:
-                    v = a >> sh if sh < 32 else 0
-                x[rd] = v
-                if sflag:
-                    setnz(v)
-            elif mn == 'cmp':
-                a, b = x[self.reg(ops[0])], self.operand2(x, ops[1:])
-                r = (a - b) & M
-                Z, N, C = int(r == 0), r >> 31, int(a >= b)
-            elif mn in ('beq', 'bne', 'bhi', 'bls', 'b', 'bl', 'bcs', 'bcc'):
-                take = {'beq': Z == 1, 'bne': Z == 0, 'bhi': C == 1 and Z == 0, 'bls': C == 0 or Z == 1, 'bcs': C == 1, 'bcc': C == 0, 'b': True, 'bl': True}[mn]
-                tgt = ops[0]
-                if tgt not in prog.labels:
-                    raise Unsupported('branch target %r' % tgt)
-                if mn == 'bl':
-                    x[14] = (prog.addr[pc] + prog.insn_size) | 1
-                if take:
-                    npc = prog.labels[tgt]
-            elif mn == 'adr':
+                    v = (a & b) if base == 'tst' else (a ^ b)
+                    N, Z, C = v >> 31, int(v & M == 0), sc
+            elif base == 'b':
+                if ops[0] not in prog.labels:
+                    raise Unsupported('branch target %r' % ops[0])
+                npc = prog.labels[ops[0]]
+            elif base == 'bl':
+                raise Unsupported('call: %s' % src)
+            elif base in ('cbz', 'cbnz'):
+                if ops[1] not in prog.labels:
+                    raise Unsupported('branch target %r' % ops[1])
+                if (x[self.reg(ops[0])] == 0) == (base == 'cbz'):
+                    npc = prog.labels[ops[1]]
+            elif base == 'adr':
                 if ops[1] not in prog.label_addr:
                     raise Unsupported('adr target %r' % ops[1])
                 x[self.reg(ops[0])] = prog.label_addr[ops[1]]
-            elif mn in ('ldr', 'str'):
-                rt = self.reg(ops[0])
-                m = re.fullmatch(r'\[\s*(\w+)\s*(?:,\s*(#?-?\w+)\s*)?\]', ops[1].strip())
-                if not m:
-                    raise Unsupported('addressing mode %r' % ops[1])
-                b = self.reg(m.group(1))
-                off = 0
-                if m.group(2):
-                    o = m.group(2)
-                    off = parse_int(o) if (o.startswith('#') or re.fullmatch(r'-?\d+', o)) else x[self.reg(o)]
-                addr = (x[b] + off) & M
-                if addr % 4:
-                    raise Violation('misaligned-access', '%s at 0x%x' % (src, addr))
-                if STACK_TOP - STACK_SIZE <= addr < x[13]:
-                    raise Violation('access-below-stack-pointer', '%s touches 0x%x while sp = 0x%x' % (src, addr, x[13]))
-                if mn == 'ldr':
-                    x[rt] = mem.load(addr, 4, src)
-                else:
-                    if addr >= STACK_TOP and addr < STACK_TOP + 0x1000:
-                        raise Violation('write-outside-allowed-memory', '%s stores above the entry stack pointer (caller frame)' % src)
-                    mem.store(addr, 4, x[rt], src)
-            elif mn == 'push':
-                regs = self.reglist(ops[0] if len(ops) == 1 else ','.join(ops))
-                x[13] = (x[13] - 4 * len(regs)) & M
+            elif base == 'nop':
+                pass
+            elif base in ('uxtb', 'uxth', 'sxtb', 'sxth'):
+                w = 8 if base.endswith('b') else 16
+                v = x[self.reg(ops[1])]
+                if len(ops) > 2:
+                    v, _ = self.shifted(x, v, ops[2], 0)
+                x[self.reg(ops[0])] = (v & ((1 << w) - 1)) if base[0] == 'u' else sx(v, w) & M
+            elif base == 'rev':
+                x[self.reg(ops[0])] = int.from_bytes(x[self.reg(ops[1])].to_bytes(4, 'little'), 'big')
+            elif base in ('ubfx', 'sbfx'):
+                lsb, w = parse_int(ops[2]), parse_int(ops[3])
+                v = (x[self.reg(ops[1])] >> lsb) & ((1 << w) - 1)
+                x[self.reg(ops[0])] = v if base == 'ubfx' else sx(v, w) & M
+            elif base in ('movw', 'movt'):
+                imm = parse_int(ops[1])
+                if not 0 <= imm <= 0xffff:
+                    raise Violation('encoding', 'immediate out of range in: %s' % src)
+                rd = self.reg(ops[0])
+                x[rd] = imm if base == 'movw' else (x[rd] & 0xffff) | (imm << 16)
+            elif base in MEM:
+                dual = base in ('ldrd', 'strd')
+                load = base.startswith('ld')
+                size = 1 if base.rstrip('s')[-1] == 'b' or base in ('ldrsb',) else 2 if base in ('ldrh', 'strh', 'ldrsh') else 4
+                regs = [self.reg(ops[0])] + ([self.reg(ops[1])] if dual else [])
+                addr, wb, nb = self.address(x, ops[2 if dual else 1:])
+                if wb is not None and addr == nb and nb != x[wb]:
+                    x[wb] = nb          # pre-index: base updated first (a push by str rX, [sp, #-4]! is a legal frame)
+                    wb = None
                 for i, r in enumerate(regs):
-                    mem.store(x[13] + 4 * i, 4, x[r], src)
-            elif mn == 'pop':
-                regs = self.reglist(ops[0] if len(ops) == 1 else ','.join(ops))
-                done = False
-                for i, r in enumerate(regs):
-                    v = mem.load(x[13] + 4 * i, 4, src)
-                    if r == 15:
-                        if (v & ~1) != RET_SENTINEL:
-                            problems.append(('return-address', 'pop {pc} returns to 0x%x, not to the caller' % v))
-                        done = True
+                    a = (addr + 4 * i) & M
+                    check(a, size, src, not load)
+                    if load:
+                        v = mem.load(a, size, src)
+                        if base in ('ldrsb', 'ldrsh'):
+                            v = sx(v, 8 * size) & M
+                        if r == 15:
+                            t = branch_to_addr(v)
+                            if t is None:
+                                done = True
+                            else:
+                                npc = t
+                        else:
+                            x[r] = v
                     else:
-                        x[r] = v
-                x[13] = (x[13] + 4 * len(regs)) & M
-                if done:
-                    break
-            elif mn == 'bx':
+                        mem.store(a, size, x[r] & ((1 << (8 * size)) - 1), src)
+                if wb is not None:
+                    x[wb] = nb
+            elif base in MULTI:
+                if base in ('push', 'pop'):
+                    b, wback = 13, True
+                    regs = self.reglist(ops[0] if len(ops) == 1 else ','.join(ops))
+                    kind = 'stmdb' if base == 'push' else 'ldmia'
+                else:
+                    bs = ops[0].strip()
+                    wback = bs.endswith('!')
+                    b = self.reg(bs.rstrip('!'))
+                    regs = self.reglist(','.join(ops[1:]))
+                    kind = {'ldm': 'ldmia', 'ldmfd': 'ldmia', 'stm': 'stmia', 'stmea': 'stmia', 'stmfd': 'stmdb'}.get(base, base)
+                cnt = 4 * len(regs)
+                start = (x[b] - cnt) & M if kind.endswith('db') else x[b]
+                newb = (x[b] - cnt) & M if kind.endswith('db') else (x[b] + cnt) & M
+                if kind.startswith('stm') and b == 13 and kind.endswith('db') and wback:
+                    x[13] = newb            # push: the stack pointer moves first
+                for i, r in enumerate(regs):
+                    a = (start + 4 * i) & M
+                    check(a, 4, src, kind.startswith('stm'))
+                    if kind.startswith('ldm'):
+                        v = mem.load(a, 4, src)
+                        if r == 15:
+                            if (v & ~1) != RET_SENTINEL:
+                                problems.append(('return-address', 'pop {pc} returns to 0x%x, not to the caller' % v))
+                            done = True
+                        else:
+                            x[r] = v
+                    else:
+                        mem.store(a, 4, x[r], src)
+                if wback and not (kind.startswith('ldm') and b in regs):
+                    x[b] = newb
+            elif base in ('bx', 'blx'):
+                if base == 'blx':
+                    raise Unsupported('call: %s' % src)
                 if (x[self.reg(ops[0])] & ~1) != RET_SENTINEL:
                     problems.append(('return-address', 'bx returns to 0x%x' % x[self.reg(ops[0])]))
                 break
